@@ -23,7 +23,7 @@ META.update({
    note="real-time order observed on x86-TSO only; oracle uses definitely-before relations, so it can miss but not false-alarm"),
  "C07": dict(engine="miri + native (+asan in thorough)", category="exploration",
    technique="Miri data-race/UB/leak detection on the real UnsafeCell accesses under the declared orderings; drop-counting payloads; hook-log cell-section exclusivity check",
-   text="Miri judges the cell accesses by happens-before derived from the orderings in the source, so an ordering downgrade is reported on the first execution in which a value crosses threads; payload drops are counted exactly per value natively and under Miri; ASan/LSan in thorough.",
+   text="Miri judges the cell accesses by happens-before derived from the orderings in the source, so an ordering downgrade is reported on the first execution in which a value crosses threads; payload drops are counted exactly per value natively and under Miri; a forced ABA schedule (one thread held between its load of the queue word and its compare-exchange by a Relaxed-only hook while another cycles the head slot) for both dequeues; the weak compare-exchange failure rate of Miri is rotated over 0.8 / 0 / 0.3; ASan/LSan in thorough.",
    note="Miri explores a sample of interleavings/reads-from choices; no load buffering in its model"),
  "C08": dict(engine="native (+miri in thorough)", category="fault_enumeration",
    technique="failpoint sweep: nested operations injected at every channel hook site x occurrence x batch kind x fill, park sweep with all other threads frozen, CAS-iteration accounting, real-signal nesting",
@@ -49,29 +49,29 @@ META.update({
 META.update({
  "C12": dict(engine="native forked probes (+valgrind in thorough)", category="exploration",
    technique="runtime monitoring: generated operation scripts in forked children checked step by step against a reference model (hook counts, FIONREAD, fd table, waitpid status)",
-   text="Thousands of scripts per exfiltrator; every rejected number in [-2,130] plus extreme integers is used as the rejected step; a real delivery is raised inside the drop of the last owner (write end must still be open); two threads add the same signal concurrently (must end up watched once, nothing left after the drop). Found and, after the fix: commits, guards against: poisoned id table, abort in a failing constructor, double slot initialisation.",
+   text="Thousands of scripts per exfiltrator; every rejected number in [-2,130] plus extreme integers is used as the rejected step; a real delivery is raised inside the drop of the last owner (write end must still be open); two threads add the same signal concurrently (must end up watched once, nothing left after the drop); the last two owners are dropped by two threads, one of them standing still at every single instruction of its drop while the other drops completely (trap-flag stepping). Found and, after the fix: commits, guards against: poisoned id table, abort in a failing constructor, double slot initialisation.",
    note="sequential scripts (the property is about sequences); expected outcome classes are those of this kernel and glibc"),
 })
 META.update({
  "C13": dict(engine="native forked probes + strace", category="exploration",
    technique="runtime monitoring: failpoint count of wake attempts per delivery, byte accounting, fcntl/fd-table probes, /proc syscall probe for a blocked delivery, strace trace checked per delivery bracket and per descriptor",
-   text="15 (kind, fill) scenarios with >1000 deliveries each, rejected registrations, invalid descriptors and thousands of register/unregister cycles with number reuse; the strace oracle sees the actual write/sendto/close syscalls; the iterator's own write end is covered by instance scripts with a delivery raised during the owner's drop.",
+   text="15 (kind, fill) scenarios with >1000 deliveries each, rejected registrations, invalid descriptors and thousands of register/unregister cycles with number reuse; the strace oracle sees the actual write/sendto/close syscalls; the iterator's own write end is covered by instance scripts with a delivery raised during the owner's drop; further: a delivery at the moment of publication inside the registration call, errno left at EINTR/EAGAIN/EPIPE by the interrupted code, a registered pipe whose reader has gone away (the wake-up is given up, not retried), 1500 deliveries on the consumer's own thread with a full self-pipe.",
    note="a blocked delivery is decided from the child's stable syscall state, not from a timeout"),
  "C14": dict(engine="native forked probes (+valgrind in thorough)", category="exploration",
    technique="complete enumeration of (entry point x signal number x context) in forked children with the kernel, sigaction(2) and the fd table as oracles",
-   text="The finite grid (about 5500 cases: 16 entry points x 140 numbers x 3 contexts incl. 'after an unchecked registration of the same number') is run completely in both tiers; each case checks the outcome class and, after a refusal, that dispositions, registry, captured state and descriptors are as before and the entry point still works; strace flags a second close of a handed-over descriptor.",
+   text="The finite grid (about 6900 cases: 17 entry points incl. add_signal on a closed instance x 140 numbers x 3 contexts incl. 'after an unchecked registration of the same number', plus 'the handed-over descriptor is number 0' for the pipe entry points) is run completely in the thorough tier, all forbidden numbers and a seeded third of the rest in quick; the refused action's captured state removes a companion registration in its Drop (a deadlocked child is a verdict); each case checks the outcome class and, after a refusal, that dispositions, registry, captured state and descriptors are as before and the entry point still works; strace flags a second close of a handed-over descriptor.",
    note="classes come from this kernel/glibc and the published FORBIDDEN list"),
  "C15": dict(engine="native forked probes", category="exploration",
    technique="generated sequential scripts in forked children with waitpid status and marker pipe against the script's own model; complete grid of the double-Ctrl-C recipe up to length 6",
-   text="Every arm/disarm history up to length 6 in both registration orders plus thousands of random scripts over all exit statuses, signals and both conditional actions, half of them in multi-threaded children (a shutdown that ends only the delivering thread is seen by a second thread).",
+   text="Every arm/disarm history up to length 6 in both registration orders plus thousands of random scripts over all exit statuses, signals and both conditional actions, half of them in multi-threaded children (a shutdown that ends only the delivering thread is seen by a second thread); scripts with a stale id removed again after the recipe was registered, with another thread living inside deliveries of an unrelated signal, and the recipe registered by two threads at once next to 80 other registrations.",
    note="sequential scripts only (the property is about sequences)"),
  "C16": dict(engine="native forked probes", category="exploration",
    technique="paired forked probes (kernel default vs emulation) over the complete signal-number grid in three contexts, waitpid(WUNTRACED) as oracle",
-   text="Complete in both tiers: 70 numbers x 5 contexts (plain, inside own action, blocked, another signal blocked and pending, on a non-main thread). Found the SIGIO mismatch on Linux (fixed by a fix: commit).",
+   text="Complete in both tiers: 70 numbers x 6 contexts (plain, inside own action, blocked, another signal blocked and pending, on a non-main thread, currently ignored); a terminating signal sent while the process is stopped through the emulation; another thread registering for the same signal at the k-th instruction of the emulation (trap-flag stepping, one forked child per instant); the harness process has used low_level::raise before it forks. Found the SIGIO mismatch on Linux (fixed by a fix: commit).",
    note="oracle is this kernel; process group arranged to be non-orphaned"),
  "C17": dict(engine="native forked probes", category="exploration",
    technique="exhaustive synthetic record grid against an independent table + real sends through every mechanism with the raw record cross-read by libc accessors",
-   text="69632 synthetic records (every cause code the extractor distinguishes and 250 it must not, each with 4 pid/uid variants incl. legitimate zeros) and ~285 real (mechanism, signal) probes including children, timers and SIGPIPE; the driver forces a rebuild when extract.c changes (cargo does not track it).",
+   text="69632 synthetic records (every cause code the extractor distinguishes and 250 it must not, each with 4 pid/uid variants incl. legitimate zeros) and ~285 real (mechanism, signal) probes including children, timers and SIGPIPE; four threads extracting six kinds of records at once and a handler that extracts while it interrupts an extraction (signal, cause and process must be those of the own record); the driver forces a rebuild when extract.c changes (cargo does not track it).",
    note="kernel and glibc of this sandbox are the ground truth"),
 })
 META.update({
@@ -81,7 +81,7 @@ META.update({
    note="arrival instants = hook sites, every instruction between them (trap-flag stepping of the registering thread; all in thorough, every 5th in quick) + random bombardment; chaining cannot be run under Miri"),
  "C05": dict(engine="native forked probes", category="exploration",
    technique="runtime monitoring against an executable reference model (per-signal ordered Vec of (id, tag)) with a delivery after every operation; sigaction(2) and a blocked read(2) as kernel oracles",
-   text="About 320k operations per quick run (millions in thorough) over 16 seeds on up to 55 signals; every delivery's ordered run list must equal the model's. A second mode runs 3 owner threads with disjoint signals and one model each: what one thread does to its signals must never change another thread's (catches lost updates between writers).",
+   text="About 320k operations per quick run (millions in thorough) over 16 seeds on up to 55 signals; every delivery's ordered run list must equal the model's. A second mode runs 3 owner threads with disjoint signals and one model each: what one thread does to its signals must never change another thread's (catches lost updates between writers). Further children: previous handlers with one-shot / no-defer flags before the take-over, four threads registering on one signal while it is delivered (each delivery's list is a prefix of the next), two removers of one registration, actions whose captured state panics in Drop (the removal unwinds; the model says removed).",
    note="per-signal histories are sequential (single owner per signal); job-control signals are left out of the concurrent mode because the kernel discards pending stop signals when SIGCONT is generated"),
 })
 META.update({
